@@ -61,7 +61,7 @@ func verifC12read(v any) (l verifC12leaves, extraTop, extraM any, ok bool) {
 var verifC12paths = [][]string{
 	{"s"}, {"i"}, {"b"}, {"m", "k"}, {"m", "a", "0"}, {"m", "a", "1"}, // existing leaves
 	{"new"}, {"m", "new"}, // new keys
-	{"m", "a", "2"}, {"m", "a", "x"}, {"m", "a", "-1"}, {"s", "deeper"}, // must fail
+	{"m", "a", "2"}, {"m", "a", "x"}, {"m", "a", "-1"}, {"i", "deeper"}, // must fail
 }
 
 // VerifC12Alter: one nested assignment `$v.path = x` on a document with symbolic leaves.
@@ -88,6 +88,11 @@ func VerifC12Alter() {
 	// symbolic text into an int/bool leaf needs parsing and error formatting of symbolic
 	// text: outside (the fixed texts "42" and "foo" stand for it)
 	rt.Assume(!(kind == 0 && (pi == 1 || pi == 2 || pi == 4)))
+	// symbolic int/bool into a text leaf needs formatting of symbolic numbers; bool into int and
+	// int into bool are conversions the statement does not spell out: outside
+	rt.Assume(!((kind == 1 || kind == 2) && (pi == 0 || pi == 3 || pi == 5)))
+	rt.Assume(!(kind == 2 && (pi == 1 || pi == 4)))
+	rt.Assume(!(kind == 1 && pi == 2))
 	switch kind {
 	case 5:
 		x = "foo" // text that is not a number
